@@ -41,9 +41,12 @@ def interp_array_to_approx_dt(values, dt, target_dt=0.01, even=True):
     elif factor > 1:
         factor = int(np.ceil(factor))
     else:
-        factor = 1 / np.floor(1 / factor)
+        step = np.floor(1 / factor)
+        factor = 1 / step
     t_int = np.arange(len(values))
     new_npts = factor * len(values)
+    if factor < 1:
+        new_npts = len(values) / step  # not factor * npts: fl(1 / step) * npts can fall just below a whole number (step = 49)
     if even:
         new_npts = 2 * int(new_npts / 2)
     t_db = np.arange(new_npts) / factor
